@@ -17,7 +17,19 @@ goenv = dict(os.environ, GOFLAGS="-mod=mod", GOPROXY="off")
 txt = os.path.join(d, "cov.txt")
 subprocess.run(["go", "tool", "covdata", "textfmt", "-i=" + d, "-o=" + txt], cwd=REPO, env=goenv, check=True)
 pct = subprocess.run(["go", "tool", "covdata", "percent", "-i=" + d], cwd=REPO, env=goenv, capture_output=True, text=True).stdout
-fn = subprocess.run(["go", "tool", "cover", "-func=" + txt], cwd=REPO, env=goenv, capture_output=True, text=True).stdout
+# `go tool cover -func` opens every source file the counters name: the harness files exist only in the overlay, so give it a copy that has them
+sys.path.insert(0, VERIF)
+from vlib import common
+src = os.path.join(d, "src")
+shutil.copytree(REPO, src, ignore=shutil.ignore_patterns(".git"), symlinks=True)
+for dst, frm in json.load(open(common.write_overlay()))["Replace"].items():
+    rel = os.path.relpath(dst, common.REPO)
+    os.makedirs(os.path.dirname(os.path.join(src, rel)), exist_ok=True)
+    shutil.copy(frm, os.path.join(src, rel))
+fnr = subprocess.run(["go", "tool", "cover", "-func=" + txt], cwd=src, env=goenv, capture_output=True, text=True)
+fn = fnr.stdout
+if fnr.returncode != 0:
+    print("go tool cover -func:", fnr.stderr[-500:])
 rows = []
 for l in fn.splitlines():
     m = re.match(r"^(\S+):(\d+):\s+(\S+)\s+([\d.]+)%$", l)
